@@ -402,12 +402,15 @@ func (c *Client) Connect(ctx context.Context) error {
 	// Store that we are no longer shut down, since Connect can be called multiple
 	// times on the same client.
 	c.shut.Store(false)
-	c.sendExitCh = make(chan struct{}, 1)
 
 	stream, err := c.c.Modify(ctx)
 	if err != nil {
 		return fmt.Errorf("cannot open Modify RPC, %v", err)
 	}
+	// The sender exists only once the stream is open: a Connect that failed
+	// above must not leave an open sendExitCh behind, or disconnect would take
+	// it for a sender that still has to be stopped (and close modifyCh again).
+	c.sendExitCh = make(chan struct{}, 1)
 
 	// TODO(robjs): if we made these functions not niladic, and
 	// supplied to the client, then we could allow the user to
